@@ -23,10 +23,12 @@ suite_rc=$?
 grep -E "^test result|^error" /tmp/seedwork/suite-$tag.log | head -20
 echo "suite_rc=$suite_rc"
 echo "== demo with change"
+cargo build --offline -p rsass-cli -p rsass 2>&1 | tail -1
 if [ -f $out/demo.sh ]; then (cd $out && timeout 1200 bash ./demo.sh $wt) > /tmp/seedwork/demo-$tag-with.log 2>&1; with_rc=$?; else with_rc=missing; fi
 echo "demo_with_rc=$with_rc"; tail -5 /tmp/seedwork/demo-$tag-with.log
 echo "== demo without change"
 git diff > /tmp/seedwork/stash-$tag.diff; git checkout -- .
+cargo build --offline -p rsass-cli -p rsass 2>&1 | tail -1
 if [ -f $out/demo.sh ]; then (cd $out && timeout 1200 bash ./demo.sh $wt) > /tmp/seedwork/demo-$tag-without.log 2>&1; without_rc=$?; else without_rc=missing; fi
 git apply /tmp/seedwork/stash-$tag.diff
 echo "demo_without_rc=$without_rc"; tail -5 /tmp/seedwork/demo-$tag-without.log
